@@ -1,8 +1,15 @@
 import AFV.Driver.Proto
+import AFV.Driver.NestJson
 namespace AFV.Driver.C05
-open Lean AFV.Proto
+open Lean AFV.Proto AFV.Nest AFV.Driver.NestJson
 
-/-- Handler for property C05 requests (stub: not implemented yet). -/
-def handle (_req : Json) : Json := err "unimplemented"
+/-- ops:
+  {"op":"eval","arch":…,"workload":…,"mapping":…}
+     → {"analytic": result|null, "oversubscribed": bool, "wf": bool, "exec": result}
+  (formats in `AFV/Driver/NestJson.lean`) -/
+def handle (req : Json) : Json :=
+  match (field? req "op").bind getStr? with
+  | some "eval" => evalReply req
+  | _ => err "bad-op"
 
 end AFV.Driver.C05
